@@ -165,6 +165,12 @@ CacheTrees == IF Mode # "cache" THEN {} ELSE Trees({<<"*", "p">>, <<"~", "p">>, 
               \cup (IF Thorough THEN Sample(Trees({<<"*", "p">>, <<"~", "p">>, <<"%", "p">>}, {<<"*", "p">>, <<"~", "s">>, <<"%", "p">>, <<"%", "s">>}, CacheSmall, 5, 3)) ELSE {})
               \cup UNION { { l, Agg("*", "p", <<l>>), Agg("%", "p", <<K, l>>), Agg("~", "s", <<l, l>>) } : l \in CacheLeaves }
 Expiries == { "0", "1", "now", "36028797018963968", "72057594037927935" }     \* 0 = none, 1 ms, the present, 2^55, 2^56 - 1
+(* wide aggregates (mode "cachewide"): n equal elements, written run-length encoded (Rep) and expected run-length encoded  *)
+(* (field rep of the expected tree: the kids repeated rep times).  The lengths straddle the sizes at which a decoder that   *)
+(* pre-allocates a bounded number of elements and grows while reading has to re-allocate.                                *)
+WideLens == IF Thorough THEN {4096, 13107, 13108, 20000, 65537} ELSE {13107, 13108, 20000}
+WideAggs == IF Mode # "cachewide" THEN {} ELSE { <<t, n>> : t \in {"*", "~", "%"}, n \in WideLens }
+WideUnit(t) == IF t = "%" THEN <<K, Str("$", A)>> ELSE <<Str("$", A)>>
 
 ----------------------------------------------------------------------------------------------------------------
 Subjects ==   \* (TLC evaluates constant definitions eagerly: the IF keeps the other modes' sets unevaluated)
@@ -177,11 +183,12 @@ Subjects ==   \* (TLC evaluates constant definitions eagerly: the IF keeps the o
     [] Mode = "deep"   -> DeepDepths
     [] Mode = "cmd"    -> CmdSeqs
     [] Mode = "cache"  -> CacheTrees
+    [] Mode = "cachewide" -> WideAggs
 
 Init == x \in Subjects /\ m = NoMut
 Next ==
   \/ Mode = "mut" /\ m = NoMut /\ m' \in Mutations(x) /\ x' = x
-  \/ Mode = "cache" /\ m = NoMut /\ m' \in { Mut("expiry", <<>>, e) : e \in Expiries } /\ x' = x
+  \/ Mode \in {"cache", "cachewide"} /\ m = NoMut /\ m' \in { Mut("expiry", <<>>, e) : e \in Expiries } /\ x' = x
   \/ UNCHANGED vars
 Spec == Init /\ [][Next]_vars
 
@@ -204,8 +211,13 @@ CaseRec ==
          [kind |-> "cmd", cmds |-> x, toks |-> EncodeCmds(x)]
     [] Mode = "cache" ->
          [kind |-> "cache", sig |-> Sig(x), toks |-> Encode(x), exp |-> <<Expected(x)>>, expiry |-> m.cls, pxat |-> IF m.cls = "0" THEN "-1" ELSE m.cls]
+    [] Mode = "cachewide" ->
+         [kind |-> "cache", sig |-> x[1] \o "[wide" \o ToString(x[2]) \o "]",
+          toks |-> <<Y(x[1]), N(x[2]), CRLF, Rep(x[2], EncodeSeq(WideUnit(x[1])))>>,
+          exp |-> <<[k |-> "agg", t |-> x[1], s |-> <<>>, i |-> "", kids |-> ExpectedSeq(WideUnit(x[1])), a |-> <<>>, rep |-> x[2]]>>,
+          expiry |-> m.cls, pxat |-> IF m.cls = "0" THEN "-1" ELSE m.cls]
 
-Ready == CASE Mode \in {"mut", "cache"} -> m # NoMut [] OTHER -> TRUE
+Ready == CASE Mode \in {"mut", "cache", "cachewide"} -> m # NoMut [] OTHER -> TRUE
 EmitCase == (Emit /\ Ready) => PrintT(<<"CASE", ToJson(CaseRec)>>)
 
 ----------------------------------------------------------------------------------------------------------------
